@@ -29,42 +29,27 @@ func NewVerifCodec(
 	ctx context.Context, src *am.Machine, syncSchema, shallow, mutations bool,
 	allowed, skipped am.S,
 ) (*VerifCodec, error) {
+	srvMach := am.New(ctx, am.Schema{ssS.Start: {}, ssS.Handshaking: {}},
+		&am.Opts{Id: "verif-srv"})
+	srvMach.Add1(ssS.Start, nil)
 	s := &Server{
-		Source:            src,
-		syncSchema:        syncSchema,
-		syncShallowClocks: shallow,
-		syncMutations:     mutations,
-		syncAllowedStates: allowed,
-		syncSkippedStates: skipped,
-		lastPushData:      &tracerData{},
+		Source:       src,
+		Mach:         srvMach,
+		lastPushData: &tracerData{},
 	}
 	t := &sourceTracer{TracerNoOp: &am.TracerNoOp{Id: "verif-src"}, s: s}
 	s.tracer = t
 
-	// --- RemoteHello (server side)
-	export, schema, err := src.Export()
+	// --- the real RemoteHello (server side)
+	resp := &MsgSrvHello{}
+	err := s.RemoteHello(nil, &MsgCliHello{Id: "verif-cli", SyncSchema: syncSchema,
+		SyncMutations: mutations, AllowedStates: allowed, SkippedStates: skipped,
+		ShallowClocks: shallow}, resp)
 	if err != nil {
 		return nil, err
 	}
-	export.Time = slices.Clone(export.Time)
-	t.calcTrackedStates(export.StateNames)
-	t.active = true
-	tTrackedSum := export.Time.Filter(t.trackedStateIdxs).Sum(nil)
-	if !syncSchema {
-		export.StateNames = am.StatesShared(export.StateNames, t.trackedStates)
-		export.Time = export.Time.Filter(t.trackedStateIdxs)
-		schema = nil
-	} else {
-		for i := range export.StateNames {
-			if slices.Contains(t.trackedStateIdxs, i) {
-				continue
-			}
-			export.Time[i] = 0
-		}
-	}
-	s.lastPushData.mTime = export.Time
-	s.lastPushData.queueTick = export.QueueTick
-	s.lastPushData.mTrackedTimeSum = tTrackedSum
+	export := resp.Serialized
+	schema := resp.Schema
 
 	// --- client side
 	hs := am.New(ctx, am.Schema{ssC.HandshakeDone: {}}, &am.Opts{Id: "verif-cli"})
